@@ -39,10 +39,17 @@ def cell_py(c, rep, i):
     raise ValueError(t)
 
 
+# the rendering of the spec's sparse keys "a", "b" (and of the indicator keys made of them).  None: as they are.  KM31: integer keys whose
+# order of first appearance in a context (3 before 1) is neither ascending nor the iteration order of a set of them
+KEYMAP = None
+KM31 = {"a": 3, "b": 1, "a_is_missing": "3_is_missing", "b_is_missing": "1_is_missing"}
+def K(key): return key if KEYMAP is None else KEYMAP.get(key, key)
+
+
 def context_py(x, rep, i):
     k = x["k"]
     if k == "dense": return tuple(cell_py(c, rep, i) for c in x["v"])
-    if k == "sparse": return {key: cell_py(c, rep, i) for key, c in x["v"]}
+    if k == "sparse": return {K(key): cell_py(c, rep, i) for key, c in x["v"]}
     return cell_py(x["v"][0], rep, i)          # scalar: the context is the value itself
 
 
@@ -101,7 +108,7 @@ def compare_context(got, exp, rep, i, chosen):
         return None
     if k == "sparse":
         if not isinstance(got, primitives.Sparse): return ("layout", None, got)
-        want = dict((key, e) for key, e in exp["v"])
+        want = dict((K(key), e) for key, e in exp["v"])
         for key in sorted(set(want) | set(got.keys()), key=str):
             if key not in want:                                  # an absent key is the value 0
                 if not (is_num(got[key]) and got[key] == 0): return (key, None, got[key])
@@ -174,7 +181,7 @@ def col_traits(case, j):
 def feature_of(case, pos):
     """feature column index for a context position (dense index / sparse key / scalar 0), None for added features"""
     if isinstance(pos, int): return pos if pos < len(case["cols"]) else None
-    return {"a": 0, "b": 1}.get(pos)
+    return {K("a"): 0, K("b"): 1}.get(pos)
 
 
 def contexts_differ(out, expected, rep):
@@ -267,6 +274,7 @@ def job(args):
         n = len(g)
         for x, i in enumerate(g):
             if n > 1: partner[i] = g[(x + 1 + (x * 5) % (n - 1)) % n]
+    global KEYMAP
     replays = 0; applications = 0; viol = []; seen = {}
     def report(c, rep, api, sig, text, extra):
         seen[sig] = seen.get(sig, 0) + 1
@@ -281,7 +289,8 @@ def job(args):
         p = cases[partner[i]] if i in partner else None
         reread = not quick or i % 4 == 0                           # quick: the first sequence is read again for every 4th case
         for api in apis:
-            for rep in reps[api]:
+            for rep, km in [(r, None) for r in reps[api]] + ([("int", KM31)] if c["shape"] == "sparse" and has_num else []):
+                KEYMAP = km
                 if rep != "int" and not has_num and not (p and any(x["t"] == "num" for col in p["cols"] for x in col)): continue
                 replays += 1; applications += 1 + (p is not None) + reread
                 res = replay(None, c, rep, api, p, reread)
@@ -291,17 +300,18 @@ def job(args):
                     if kind == "raises" and api == "env":     # the pipeline buffers: locate the failing interaction with the bare filter
                         loc = replay(None, c, rep, "filter")
                         if loc is not None and loc[1] == "raises": at = loc[3]
-                    report(c, rep, api, classify(c, rep, api, kind, detail, at), text, {})
+                    report(c, rep, api, classify(c, rep, api, kind, detail, at) + (":keys=3,1" if km else ""), text, dict(keys=km) if km else {})
                     continue
                 # a later application failed: is it the sequence itself (reported where it comes first) or the object's history?
                 if step == 1 and p is not None and replay(None, p, rep, api) is not None: continue
                 again = step == 2 or p is None
-                sig = "%s:%s:reused-object:%s" % (c["f"], "filter" if api == "filter" else "environments", "first-sequence-again" if again else "second-sequence")
+                sig = "%s:%s:reused-object:%s%s" % (c["f"], "filter" if api == "filter" else "environments", "first-sequence-again" if again else "second-sequence", ":keys=3,1" if km else "")
                 text = "the same %s, after filtering %r, applied to %s: %s" % (
                     "filter object" if api == "filter" else "Environments object (one environment per sequence)",
                     [context_py(x, rep, k) for k, x in enumerate(c["given"])],
                     "the first sequence again" if again else "a second sequence %r" % [context_py(x, rep, k) for k, x in enumerate(p["given"])], text)
                 report(c, rep, api, sig, text, dict(partner=p, step=step))
+    KEYMAP = None
     return dict(name=name, stats=st, ncases=len(cases), replays=replays, applications=applications, viol=viol, sample=cases[len(cases) // 2])
 
 
